@@ -119,6 +119,13 @@ def run_miri(prop, binname, tier, seed, rundir, env_for_build, harness, target, 
         t1 = time.time()
         try:
             r = subprocess.run(base + args, cwd=harness, env=env, stdout=subprocess.PIPE, stderr=subprocess.PIPE, text=True, timeout=5400)
+            if r.returncode != 0 and not os.path.exists(out) and parse_miri_stderr(r.stderr) is None:
+                # the interpreter never got to the workload (seen once: 16 concurrent `cargo miri run`
+                # start-ups on a loaded machine, rc=1 after 4 s, no diagnostic, no result file): a
+                # start-up failure is not an observation of vek, so the shard is started once more
+                log(f"[miri {binname} {sub} {sh}/{shards}] start-up failure rc={r.returncode}, retrying once; stderr tail: {r.stderr[-300:]}")
+                time.sleep(2)
+                r = subprocess.run(base + args, cwd=harness, env=env, stdout=subprocess.PIPE, stderr=subprocess.PIPE, text=True, timeout=5400)
             return job, r.returncode, r.stderr, time.time() - t1
         except subprocess.TimeoutExpired:
             return job, None, "timeout", time.time() - t1
